@@ -32,7 +32,7 @@ pub fn def() -> CheckDef {
         runs_quick: 60_000,
         runs_thorough: 1_200_000,
         rule: "(a) Debug/AlgorithmName text of every public type compared between two instances with different key, IV and history and along one instance's history; (b) drop injected after every prefix of a sampled history (block modes x12, byte-stream aliases x8, cores x8, buffered CFB x2 over the harness cipher, block sizes >= 8), followed by a scan of the object's storage for 8-byte windows of the IV, the exported state, its image under E and the next keystream blocks; positive control: the same scenarios on a build without the zeroize features must leave residue for every type. evaluations = scenarios; drop points counted in reach_probes.drop_points. distinct = distinct (part, type, block size, cipher, history shape); non-trivial = history of >= 1 data operation",
-        required_probes: &["drop_points", "live_state_seen", "debug_compared", "drop_mid_block", "drop_after_seek"],
+        required_probes: &["drop_points", "live_state_seen", "debug_compared", "drop_mid_block", "drop_after_seek", "debug_at_keystream_end"],
         r#gen,
         exec,
         components: "real code: Debug, AlgorithmName and Drop/zeroize implementations of the nine crates and of cipher's StreamCipherCoreWrapper; stub: block cipher (SimCipher: 16 bytes, alignment 1, so that no object has 8 or more padding bytes); scanner: harness-side read of the slot after drop_in_place; cts has neither Debug nor a zeroize feature (vacuous there)",
@@ -66,6 +66,15 @@ fn r#gen(rng: &mut Rng, thorough: bool) -> Scn {
             gen_data_op(rng, fam, mode, bs, w)
         };
         s.ops.push(op);
+    }
+    // sometimes finish exactly at the end of the keystream (position-dependent text would show there)
+    if let Some(fl) = super::c04::flavor_of(mode) {
+        let l = super::c04::limit_blocks(fl);
+        if fam == FAM_CORE && rng.chance(1, 5) {
+            s.ops.push(Op::new("setpos").p(l - rng.below(2) as u128));
+        } else if fam == FAM_STREAM && fl.bits < 128 && rng.chance(1, 5) {
+            s.ops.push(Op::new("seek").p(l * bs as u128 - (rng.below(2) * rng.below(bs as u64)) as u128).ty(1));
+        }
     }
     s
 }
@@ -167,16 +176,23 @@ fn exec(scn: &Scn, ctx: &mut Ctx) -> Verdict {
         let key2: Vec<u8> = scn.key.iter().map(|b| !b).collect();
         let iv2: Vec<u8> = scn.iv.iter().enumerate().map(|(i, b)| b.wrapping_mul(3) ^ 0x6d ^ i as u8).collect();
         let mut s2 = scn.clone();
+        // the other instance gets another history; an end-of-keystream positioning stays last
+        let end_op = match s2.ops.last() {
+            Some(o) if o.k != "data" && o.p >= 1 << 31 => s2.ops.pop(),
+            _ => None,
+        };
         s2.ops.reverse();
+        s2.ops.extend(end_op);
         for o in s2.ops.iter_mut() {
             if o.k == "data" {
                 o.n += 1;
                 o.via = o.via.wrapping_add(1);
-            } else {
+            } else if o.p < 1 << 31 {
                 o.p += 5;
             }
         }
-        s2.data.rotate_left(7);
+        let rot = 7 % s2.data.len().max(1);
+        s2.data.rotate_left(rot);
         let (y, _, _) = match replay(&s2, fam, &key2, &iv2, 1, m, None) {
             Ok(x) => x,
             Err(v) => return v,
@@ -191,6 +207,7 @@ fn exec(scn: &Scn, ctx: &mut Ctx) -> Verdict {
                 Err(v) => return v,
             };
             ctx.probe("debug_compared");
+            ctx.probe_if(matches!(x.snapshot_remaining(), Some(0)), "debug_at_keystream_end");
             let (xtext, xbuf) = split_debug(&x.debug());
             if x.alg() != yalg {
                 violation!("alg_name", "AlgorithmName text differs between two instances of one type: {:?} vs {:?}", x.alg(), yalg);
@@ -246,7 +263,11 @@ fn exec(scn: &Scn, ctx: &mut Ctx) -> Verdict {
         if let Ok((mut twin, _, _)) = replay(scn, fam, &scn.key, &scn.iv, 1, p, None) {
             let n = 2 * bs.max(twin.unit()) / twin.unit() * twin.unit();
             let z = vec![0u8; n];
-            let mut op = Op::new("data").via(if matches!(twin, Inst::C(_)) { 4 } else { 3 });
+            let mut op = Op::new("data").via(match &twin {
+                Inst::C(_) => 4,
+                Inst::S(_) => 0, // try_apply_keystream: at the end of the keystream this is an Err, not a panic
+                _ => 3,
+            });
             op.n = (n / twin.unit()) as u64;
             if scn.mode.starts_with("cfb8") {
                 // one byte of keystream per block: nothing of 8 bytes to look for
